@@ -24,7 +24,7 @@ uint32_t __cxa_guard_acquire(char* g) { return *g == 0; }
 void __cxa_guard_release(char* g) { *g = 1; }
 void __cxa_guard_abort(char* g) { (void)g; }
 #ifndef VP_NATIVE
-char __dso_handle[8];
+uint8_t __dso_handle;
 #endif
 
 /* ---- allocation: never fails (bad_alloc outside every claim) ---- */
@@ -33,6 +33,22 @@ char* _Znam(uint64_t n) { char* p = malloc(n); __CPROVER_assume(p != 0); return 
 void _ZdlPv(char* p) { free(p); }
 void _ZdaPv(char* p) { free(p); }
 void _ZdlPvm(char* p, uint64_t n) { (void)n; free(p); }
+
+/* ---- environment: nondeterministic results within the documented contract ---- */
+void _ZNSt8ios_base4InitC1Ev(char* self) { (void)self; }
+void _ZNSt8ios_base4InitD1Ev(char* self) { (void)self; }
+#ifndef VP_NATIVE
+uint32_t nondet_u32(void); uint8_t nondet_u8(void);
+uint32_t inet_pton(uint32_t af, char* src, char* dst) {
+  __CPROVER_assert(af == 2 || af == 10, "inet_pton: AF_INET or AF_INET6");
+  uint32_t n = af == 2 ? 4 : 16;
+  __CPROVER_assert(__CPROVER_r_ok(src, 1), "inet_pton: source string readable");
+  __CPROVER_assert(__CPROVER_w_ok(dst, n), "inet_pton: destination writable for the address size");
+  uint32_t r = nondet_u32(); __CPROVER_assume(r <= 1);
+  if (r == 1) for (uint32_t i = 0; i < n; ++i) dst[i] = (char)nondet_u8();
+  return r;
+}
+#endif
 
 /* ---- things that must not be reached ---- */
 void _ZSt9terminatev(void) { __CPROVER_assert(0, "std::terminate reached"); __CPROVER_assume(0); }
@@ -72,7 +88,8 @@ int vp_native_mode(void) { return 0; }
 #else
 /* native: inputs from VP_INPUT file (one decimal per line), then xorshift seeded by VP_SEED */
 static FILE* vp_in; static int vp_in_open; static uint64_t vp_rng; static uint64_t vp_hash = 1469598103934665603ULL;
-static void vp_mix(uint64_t v) { for (int i = 0; i < 8; ++i) { vp_hash ^= (v >> (8 * i)) & 0xff; vp_hash *= 1099511628211ULL; } }
+static int vp_trace = -1;
+static void vp_mix(uint64_t v) { if (vp_trace < 0) vp_trace = getenv("VP_TRACE") != 0; if (vp_trace) fprintf(stderr, "vp_mix %llx\n", (unsigned long long)v); for (int i = 0; i < 8; ++i) { vp_hash ^= (v >> (8 * i)) & 0xff; vp_hash *= 1099511628211ULL; } }
 static uint64_t vp_next(void) {
   if (!vp_in_open) { vp_in_open = 1; const char* f = getenv("VP_INPUT"); if (f) vp_in = fopen(f, "r");
     const char* s = getenv("VP_SEED"); vp_rng = s ? strtoull(s, 0, 10) * 2654435761ULL + 88172645463325252ULL : 88172645463325252ULL; }
@@ -90,6 +107,7 @@ uint32_t vp_u32(void) { uint32_t v = (uint32_t)vp_next(); vp_mix(v); return v; }
 uint64_t vp_u64(void) { uint64_t v = vp_next(); vp_mix(v); return v; }
 void vp_native_assume(int c) { vp_mix(0xA0 + !!c); if (!c) { vp_finish("ASSUME-FAIL", ""); exit(0); } }
 void vp_native_assert(int c, const char* m) { vp_mix(0xB0 + !!c); if (!c) { vp_finish("ASSERT-FAIL", m); exit(0); } }
+void vp_native_model_assume(int c) { if (!c) { vp_finish("MODEL-ASSUME-FAIL", ""); exit(0); } }
 void vp_native_model_assert(int c, const char* m) { if (!c) { vp_finish("MODEL-ASSERT", m); exit(0); } }
 void vp_assume(uint32_t c) { vp_native_assume(c); }
 void vp_assert(uint32_t c, char* m) { vp_native_assert(c, m); }
